@@ -78,7 +78,14 @@ func suiteC18(r *Run) {
 		{"clonefunc", inprocgrpc.CloneFunc(func(in interface{}) (interface{}, error) { return grpchan.VerifCloneMessage(in) })},
 		{"copyfunc", inprocgrpc.CopyFunc(func(out, in interface{}) error { return grpchan.VerifCopyMessage(out, in) })},
 	}
-	bytesOf := func(m protov1.Message) string {
+	bytesOf := func(m protov1.Message) (res string) {
+		// a copy that is not even a usable message (e.g. a dynamic message without descriptor) must not
+		// take the harness down: it is reported as a content difference
+		defer func() {
+			if p := recover(); p != nil {
+				res = "UNUSABLE-MESSAGE:" + trunc(fmt.Sprint(p), 60)
+			}
+		}()
 		if dm, ok := m.(*dynamic.Message); ok {
 			b, err := dm.MarshalDeterministic()
 			if err != nil {
@@ -104,6 +111,9 @@ func suiteC18(r *Run) {
 		ad := adapters[iter%4]
 		k := kinds[rng.Intn(len(kinds))]
 		src := k.mk(rng)
+		if rng.Chance(12) {
+			src = k.zero() // a source whose every field is at its default encodes to zero bytes
+		}
 		srcRepr := "g"
 		if k.md != nil && rng.Chance(25) {
 			src = toDynamic(k, src)
@@ -271,6 +281,11 @@ func checkCopy(r *Run, adapter, op string, c map[string]interface{}, src, out pr
 	if sd || od {
 		adapter += "/dynamic"
 	}
+	defer func() {
+		if p := recover(); p != nil {
+			r.Violate("cloner/"+adapter+"/unusable-copy", "yields, for every message, a copy that is equal to the source", sprintf("%s returned ok but inspecting the copy panics: %s", op, trunc(fmt.Sprint(p), 100)), c, "")
+		}
+	}()
 	if got := bytesOf(out); got != snap {
 		sig := "cloner/" + adapter + "/not-equal"
 		if c["dst_prepopulated"] == true {
